@@ -60,19 +60,21 @@ theorem initialAccepted_eq_self_iff (s : FSA V L) (v0 : V) (rest : List V) (hs :
     rwa [h] at this
   · exact acceptedPrefixFrom_eq_self
 
-/-- `initial_rejected_subword(word)` as coded: the word itself when it is accepted, otherwise the
-shortest rejected prefix (= longest accepted prefix plus the next letter) -/
+/-- `initial_rejected_subword(word)` (as documented, and as repaired): `None` exactly when the word
+is accepted from the first start vertex — so it agrees with `accepts` — and otherwise the shortest
+rejected prefix (= longest accepted prefix plus the next letter) -/
 theorem initialRejected_spec (s : FSA V L) (v0 : V) (rest : List V) (hs : s.starts = v0 :: rest)
     (w : List L) :
     ∃ r, s.initialRejected w = .ok r ∧
-      ((s.follow v0 w).isSome → r = w) ∧
-      (s.follow v0 w = none → r <+: w ∧ s.follow v0 r = none ∧
-        ∃ l, r = s.acceptedPrefixFrom v0 w ++ [l]) := by
+      (r = none ↔ s.accepts w (some v0) = true) ∧
+      (∀ p, r = some p → p <+: w ∧ s.follow v0 p = none ∧
+        ∃ l, p = s.acceptedPrefixFrom v0 w ++ [l]) := by
   refine ⟨s.rejectedPrefixFrom v0 w, by simp [FSA.initialRejected, hs], ?_, ?_⟩
-  · exact rejectedPrefixFrom_of_accepted
-  · intro h
-    obtain ⟨l, e, hp, hr⟩ := rejectedPrefixFrom_of_rejected h
-    exact ⟨hp, hr, l, e⟩
+  · rw [rejectedPrefixFrom_eq_none_iff]
+    simp [FSA.accepts]
+  · intro p hp
+    obtain ⟨e, hpre, hr⟩ := rejectedPrefixFrom_of_rejected hp
+    exact ⟨hpre, hr, e⟩
 
 /-- `enumerate_fixed_length_paths(n, start, with_states=True)` yields exactly the pairs
 `(w, q)` with `|w| = n` and `follow_word(w, start) = q` -/
@@ -121,10 +123,11 @@ def exFree : FSA String String := FSA.free (fun g => if g = "a" then "A" else "a
 
 example : exFree.RowsNodup ∧ exFree.accepts ["a", "a"] = true ∧ exFree.accepts ["a", "A"] = false ∧
     (exFree.initialAccepted ["a", "A", "a"]).toOption = some ["a"] ∧
-    (exFree.initialRejected ["a", "A", "a"]).toOption = some ["a", "A"] ∧
+    (exFree.initialRejected ["a", "A", "a"]).toOption = some (some ["a", "A"]) ∧
+    (exFree.initialRejected ["a", "a"]).toOption = some none ∧
     (exFree.enumUpTo "" 2).toOption.map (·.map Prod.fst) =
       some [[], ["a"], ["A"], ["a", "a"], ["A", "A"]] := by
-  refine ⟨?_, by decide, by decide, by decide, by decide, by decide⟩
+  refine ⟨?_, by decide, by decide, by decide, by decide, by decide, by decide⟩
   intro v row h
   have : row ∈ [[("a", "a"), ("A", "A")], [("a", "a")], [("A", "A")]] := by
     have hm := Dict.mem_of_get? h
@@ -264,7 +267,7 @@ theorem recurrent_greatest {s : FSA V L} (hs : s.WF) :
 /-- **`remove_long_paths(root, edge_ties)` keeps exactly the edges lying on shortest paths from the
 root.**  Whenever the call returns `(H, dist)` (`dist` is the loop's `distance` dictionary) for the
 root `r` — the given one or, for `root=None`, the first start vertex — then: `H` is a well-formed
-automaton on the same vertex set (with an empty start list, as coded); `dist[x] = n` iff `n` is the
+automaton on the same vertex set whose start vertex is `r`; `dist[x] = n` iff `n` is the
 graph distance from `r` to `x`; every edge of `H` is an edge of the original automaton from a vertex
 at distance `d` to a vertex at distance `d + 1`; with `edge_ties=True` `H` has *every* such edge; with
 `edge_ties=False` every vertex reachable from `r`, other than `r`, has in `H` incoming edges from
@@ -272,8 +275,8 @@ exactly one vertex (so `H` is a spanning tree of the shortest-path edges), and a
 keeps all its parallel labels. -/
 theorem removeLongPaths_shortest {s : FSA V L} (hs : s.WF) (root : Option V) (ties : Bool)
     {H : FSA V L} {dist : Dict V Nat} (h : s.removeLongPaths root ties = .ok (H, dist)) :
-    H.WF ∧ H.starts = [] ∧ (∀ v, v ∈ H.vertices ↔ v ∈ s.vertices) ∧
-    ∃ r, (root = some r ∨ (root = none ∧ s.starts.head? = some r)) ∧
+    H.WF ∧ (∀ v, v ∈ H.vertices ↔ v ∈ s.vertices) ∧
+    ∃ r, (root = some r ∨ (root = none ∧ s.starts.head? = some r)) ∧ H.starts = [r] ∧
       (∀ x n, dist.get? x = some n ↔ IsDist s r x n) ∧
       (∀ v l w, H.step v l = some w →
         s.step v l = some w ∧ ∃ d, IsDist s r v d ∧ IsDist s r w (d + 1)) ∧
